@@ -559,9 +559,12 @@ def whereOK : Expr → Bool
     operands -/
 def fragQ : Query → Bool
   | .select _ its frm wh grp hav =>
-    noSubI its && fragFs frm && (match wh with | none => true | some e => whereOK e) && noSubL grp && noSubOpt hav
+    noSubI its && fragFs frm && whereOKOpt wh && noSubL grp && noSubOpt hav
   | .setop first rest => fragB first && fragOBs rest
   | .withq _ _ => false
+def whereOKOpt : Option Expr → Bool
+  | none => true
+  | some e => whereOK e
 def fragB : Branch → Bool
   | .mk q _ => isSelect q && fragQ q
 def fragOBs : List OpBranch → Bool
@@ -579,10 +582,6 @@ def fragFs : List FromExpr → Bool
   | [] => true
   | f :: r => fragF f && fragFs r
 end
-
-def whereOKOpt : Option Expr → Bool
-  | none => true
-  | some e => whereOK e
 
 mutual
 /-- datasets read by the subqueries of an expression (mirror of `Spec.rdExpr`) -/
@@ -1405,5 +1404,224 @@ theorem cdFromExprs_sub (env : Env) (g : LGraph) (hc : cteObjs g = []) (o : DObj
     simp only [dsFromExprs, List.mem_append]
     exact hm.imp (cdFromExpr_sub env g hc o ho f h.1) (cdFromExprs_sub env g hc o ho r h.2)
 end
+
+/-! ## 6. splitting the specification along the walk: derived part (subquery extraction) + table part (`tablesOfFrom`) -/
+
+/-- what the extraction of the derived tables of a FROM element contributes -/
+def dvElem (env : Env) : FromElem → List DS
+  | .table _ _ _ => []
+  | .derived q _ _ => dsQuery env [] q
+def dvJoins (env : Env) : List Join → List DS
+  | [] => []
+  | .mk _ e _ _ :: r => dvElem env e ++ dvJoins env r
+def dvFromExpr (env : Env) : FromExpr → List DS
+  | .mk base js => dvElem env base ++ dvJoins env js
+def dvFromExprs (env : Env) : List FromExpr → List DS
+  | [] => []
+  | f :: r => dvFromExpr env f ++ dvFromExprs env r
+/-- what `sqBranch` contributes: derived tables and WHERE subqueries of a SELECT branch -/
+def dvBranch (env : Env) : Branch → List DS
+  | .mk (.select _ _ frm wh _ _) _ => dvFromExprs env frm ++ dsOpt env [] wh
+  | .mk _ _ => []
+def dvOpBranches (env : Env) : List OpBranch → List DS
+  | [] => []
+  | .mk _ b :: r => dvBranch env b ++ dvOpBranches env r
+
+/-- tables one from‑expression contributes to `tablesOfFrom` -/
+def perFe (env : Env) (g : LGraph) : FromExpr → List DObj
+  | .mk base js => datasetOfElem env g base ++ (if js.isEmpty then [] else cdFromExpr env g (.mk base js))
+
+theorem tablesOfFrom_eq (env : Env) (g : LGraph) (frm : List FromExpr) :
+    tablesOfFrom env g frm = frm.flatMap (perFe env g) := by
+  match frm with
+  | [] => rfl
+  | [.mk base js] => simp [tablesOfFrom, perFe]
+  | a :: b :: r =>
+    simp only [tablesOfFrom]
+    congr 1
+
+theorem dvElem_sub (env : Env) (e : FromElem) (d : DS) (h : d ∈ dvElem env e) : d ∈ dsElem env [] e := by
+  cases e with
+  | table _ _ _ => simp [dvElem] at h
+  | derived q _ _ => simpa only [dvElem, dsElem] using h
+
+theorem dvJoins_sub (env : Env) (js : List Join) (d : DS) (h : d ∈ dvJoins env js) : d ∈ dsJoins env [] js := by
+  induction js with
+  | nil => simp [dvJoins] at h
+  | cons j r ih =>
+    cases j with
+    | mk k e on u =>
+      simp only [dvJoins, List.mem_append] at h
+      simp only [dsJoins, List.mem_append]
+      rcases h with h | h
+      · exact Or.inl (Or.inl (dvElem_sub env e d h))
+      · exact Or.inr (ih h)
+
+theorem dvFromExpr_sub (env : Env) (fe : FromExpr) (d : DS) (h : d ∈ dvFromExpr env fe) : d ∈ dsFromExpr env [] fe := by
+  cases fe with
+  | mk base js =>
+    simp only [dvFromExpr, List.mem_append] at h
+    simp only [dsFromExpr, List.mem_append]
+    exact h.imp (dvElem_sub env base d) (dvJoins_sub env js d)
+
+theorem dvFromExprs_sub (env : Env) (frm : List FromExpr) (d : DS) (h : d ∈ dvFromExprs env frm) :
+    d ∈ dsFromExprs env [] frm := by
+  induction frm with
+  | nil => simp [dvFromExprs] at h
+  | cons f r ih =>
+    simp only [dvFromExprs, List.mem_append] at h
+    simp only [dsFromExprs, List.mem_append]
+    exact h.imp (dvFromExpr_sub env f d) ih
+
+/-- a FROM element is a derived table (extracted) or a table (listed) -/
+theorem elem_split (env : Env) (g : LGraph) (hc : cteObjs g = []) (e : FromElem) (d : DS) (h : d ∈ dsElem env [] e) :
+    d ∈ dvElem env e ∨ d ∈ (datasetOfElem env g e).map (·.d) := by
+  cases e with
+  | table parts a k =>
+    rw [dsElem_table_nil] at h
+    rw [datasetOfElem_table env g hc]
+    right
+    simpa only [List.map_cons, List.map_nil, mkTable_d] using h
+  | derived q a k => left; simpa only [dvElem, dsElem] using h
+
+theorem joins_split (env : Env) (g : LGraph) (hc : cteObjs g = []) (js : List Join) (hf : fragJs js = true) (d : DS)
+    (h : d ∈ dsJoins env [] js) : d ∈ dvJoins env js ∨ d ∈ (cdJoins env g js).map (·.d) := by
+  induction js with
+  | nil => simp [dsJoins] at h
+  | cons j r ih =>
+    cases j with
+    | mk k e on u =>
+      simp only [fragJs, Bool.and_eq_true] at hf
+      have h' : d ∈ dsElem env [] e ∨ d ∈ dsJoins env [] r := by
+        simpa only [dsJoins, dsOpt_noSub env [] on hf.1.2, List.append_nil, List.mem_append] using h
+      have hgoal : (d ∈ dvElem env e ∨ d ∈ dvJoins env r) ∨
+          ((d ∈ (datasetOfElem env g e).map (·.d) ∨ d ∈ (cdElem env g e).map (·.d)) ∨ d ∈ (cdJoins env g r).map (·.d)) := by
+        rcases h' with h | h
+        · rcases elem_split env g hc e d h with x | x
+          · exact Or.inl (Or.inl x)
+          · exact Or.inr (Or.inl (Or.inl x))
+        · rcases ih hf.2 h with x | x
+          · exact Or.inl (Or.inr x)
+          · exact Or.inr (Or.inr x)
+      cases on with
+      | none => simpa only [dvJoins, cdJoins, List.append_nil, List.map_append, List.mem_append] using hgoal
+      | some c =>
+        have hc' := hf.1.2
+        simp only [noSubOpt] at hc'
+        simpa only [dvJoins, cdJoins, cdExpr_noSub env g c hc', List.append_nil, List.map_append, List.mem_append] using hgoal
+
+theorem fe_split (env : Env) (g : LGraph) (hc : cteObjs g = []) (fe : FromExpr) (hf : fragF fe = true) (d : DS)
+    (hd : d.isDataset = true) :
+    d ∈ dsFromExpr env [] fe ↔ d ∈ dvFromExpr env fe ∨ d ∈ (perFe env g fe).map (·.d) := by
+  cases fe with
+  | mk base js =>
+    have hf' := hf
+    simp only [fragF, Bool.and_eq_true] at hf'
+    constructor
+    · intro h
+      simp only [dsFromExpr, List.mem_append] at h
+      simp only [dvFromExpr, perFe, List.map_append, List.mem_append]
+      rcases h with h | h
+      · rcases elem_split env g hc base d h with x | x
+        · exact Or.inl (Or.inl x)
+        · exact Or.inr (Or.inl x)
+      · rcases joins_split env g hc js hf'.2 d h with x | x
+        · exact Or.inl (Or.inr x)
+        · right; right
+          cases js with
+          | nil => simp [cdJoins] at x
+          | cons j r =>
+            simp only [List.isEmpty_cons, Bool.false_eq_true, if_false, cdFromExpr, List.map_append, List.mem_append]
+            exact Or.inr x
+    · rintro (h | h)
+      · exact dvFromExpr_sub env _ d h
+      · simp only [perFe, List.map_append, List.mem_append, List.mem_map] at h
+        rcases h with ⟨o, ho, rfl⟩ | ⟨o, ho, rfl⟩
+        · simp only [dsFromExpr, List.mem_append]
+          exact Or.inl (datasetOfElem_sub env g hc o hd base ho)
+        · by_cases hj : js.isEmpty = true
+          · rw [if_pos hj] at ho; cases ho
+          · rw [if_neg hj] at ho
+            exact cdFromExpr_sub env g hc o hd _ hf ho
+
+theorem from_split (env : Env) (g : LGraph) (hc : cteObjs g = []) (frm : List FromExpr) (hf : fragFs frm = true) (d : DS)
+    (hd : d.isDataset = true) :
+    d ∈ dsFromExprs env [] frm ↔ d ∈ dvFromExprs env frm ∨ d ∈ (tablesOfFrom env g frm).map (·.d) := by
+  rw [tablesOfFrom_eq]
+  induction frm with
+  | nil => simp [dsFromExprs, dvFromExprs]
+  | cons f r ih =>
+    simp only [fragFs, Bool.and_eq_true] at hf
+    simp only [dsFromExprs, dvFromExprs, List.flatMap_cons, List.map_append, List.mem_append,
+      fe_split env g hc f hf.1 d hd, ih hf.2]
+    constructor
+    · rintro ((a | a) | (a | a))
+      · exact Or.inl (Or.inl a)
+      · exact Or.inr (Or.inl a)
+      · exact Or.inl (Or.inr a)
+      · exact Or.inr (Or.inr a)
+    · rintro ((a | a) | (a | a))
+      · exact Or.inl (Or.inl a)
+      · exact Or.inr (Or.inl a)
+      · exact Or.inl (Or.inr a)
+      · exact Or.inr (Or.inr a)
+
+/-- a SELECT block of the fragment: specification = extracted part ∪ listed tables -/
+theorem sel_split (env : Env) (g : LGraph) (hc : cteObjs g = []) (dist : Bool) (its : List Item) (frm : List FromExpr)
+    (wh : Option Expr) (grp : List Expr) (hav : Option Expr) (hf : fragQ (.select dist its frm wh grp hav) = true)
+    (d : DS) (hd : d.isDataset = true) :
+    d ∈ dsQuery env [] (.select dist its frm wh grp hav) ↔
+      d ∈ dvFromExprs env frm ++ dsOpt env [] wh ∨ d ∈ (tablesOfFrom env g frm).map (·.d) := by
+  simp only [fragQ, Bool.and_eq_true] at hf
+  obtain ⟨⟨⟨⟨hits, hfrm⟩, hwh⟩, hgrp⟩, hhav⟩ := hf
+  simp only [dsQuery, dsItems_noSub env [] its hits, dsExpr_noSubL env [] grp hgrp, dsOpt_noSub env [] hav hhav,
+    List.append_nil, List.mem_append, from_split env g hc frm hfrm d hd]
+  constructor
+  · rintro ((a | a) | a)
+    · exact Or.inl (Or.inl a)
+    · exact Or.inr a
+    · exact Or.inl (Or.inr a)
+  · rintro ((a | a) | a)
+    · exact Or.inl (Or.inl a)
+    · exact Or.inr a
+    · exact Or.inl (Or.inr a)
+
+theorem branch_split (env : Env) (g : LGraph) (hc : cteObjs g = []) (b : Branch) (hf : fragB b = true)
+    (d : DS) (hd : d.isDataset = true) :
+    d ∈ dsBranch env [] b ↔ d ∈ dvBranch env b ∨ d ∈ (tablesOfFrom env g (branchParts b).2).map (·.d) := by
+  cases b with
+  | mk q br =>
+    simp only [fragB, Bool.and_eq_true] at hf
+    cases q with
+    | select dist its frm wh grp hav =>
+      simp only [dsBranch, dvBranch, branchParts]
+      exact sel_split env g hc dist its frm wh grp hav hf.2 d hd
+    | setop _ _ => simp [isSelect] at hf
+    | withq _ _ => simp [isSelect] at hf
+
+theorem opBranches_split (env : Env) (g : LGraph) (hc : cteObjs g = []) (l : List OpBranch) (hf : fragOBs l = true)
+    (d : DS) (hd : d.isDataset = true) :
+    d ∈ dsOpBranches env [] l ↔ d ∈ dvOpBranches env l ∨ d ∈ (fbTables env g (l.map opBranchParts)).map (·.d) := by
+  induction l with
+  | nil => simp [dsOpBranches, dvOpBranches, fbTables]
+  | cons ob r ih =>
+    cases ob with
+    | mk op b =>
+      simp only [fragOBs, Bool.and_eq_true] at hf
+      have ih' := ih hf.2
+      unfold fbTables at ih' ⊢
+      simp only [dsOpBranches, dvOpBranches, List.map_cons, List.flatMap_cons, List.map_append, List.mem_append,
+        branch_split env g hc b hf.1 d hd, ih', opBranchParts]
+      constructor
+      · rintro ((a | a) | (a | a))
+        · exact Or.inl (Or.inl a)
+        · exact Or.inr (Or.inl a)
+        · exact Or.inl (Or.inr a)
+        · exact Or.inr (Or.inr a)
+      · rintro ((a | a) | (a | a))
+        · exact Or.inl (Or.inl a)
+        · exact Or.inr (Or.inl a)
+        · exact Or.inl (Or.inr a)
+        · exact Or.inr (Or.inr a)
 
 end SqlLineage.Proofs.ReadsExact
